@@ -134,13 +134,21 @@ def contracts():
 
 
 # ------------------------------------------------------------------ validation of the abstraction against the real parser
-def true_class(text):
-    """Top-level operator class of a CEL text according to the library's own parser."""
-    celpy.CELParser.CEL_PARSER = None
-    try:
-        t = celpy.CELParser().parse(text)
-    finally:
+_P_LARK = []
+
+
+def _init_lark():
+    if not _P_LARK:
         celpy.CELParser.CEL_PARSER = None
+        celpy.CELParser()
+        _P_LARK.append(celpy.CELParser.CEL_PARSER)
+        celpy.CELParser.CEL_PARSER = None
+
+
+def true_class(text):
+    _init_lark()
+    """Top-level operator class of a CEL text according to the library's own parser."""
+    t = _P_LARK[0].parse(text)
     order = [("expr", TERNARY), ("conditionalor", OR), ("conditionaland", AND), ("relation", REL),
              ("addition", REL), ("multiplication", REL), ("unary", UNARY)]
     node = t
@@ -162,6 +170,31 @@ REPRESENTATIVES = [
 ]
 
 
+ATOMS = ['a', '(x)', '"s"', "'s'", '"it\'s"', '\'say "hi"\'', '"a||b"', "'a&&b'", '"?"', '"("', '")"', '"\\""',
+         'x["k"]', 'f(a, b)', '[1]', '{1: 2}', '(p || q)', '(p ? q : r)']
+
+
+def generated_texts():
+    """Systematic family: every operator class built from atoms that contain quotes of both kinds, operator
+    characters inside literals, brackets and leading/trailing groups."""
+    import itertools
+    out = list(REPRESENTATIVES) + list(ATOMS)
+    for a in ATOMS:
+        out.append(f"! {a}")
+    for a, b in itertools.product(ATOMS, repeat=2):
+        out += [f"{a} == {b}", f"{a} && {b}", f"{a} || {b}"]
+    small = ['a', '"it\'s"', '\'say "hi"\'', '(p || q)', '"a||b"', '"?"']
+    for a, b, c in itertools.product(small, repeat=3):
+        out += [f"{a} ? {b} : {c}", f"{a} && {b} || {c}", f"{a} || {b} && {c}", f"({a} && {b}) || ({c} && {a})",
+                f"({a} || {b}) && ({c} || {a})"]
+    seen, res = set(), []
+    for t in out:
+        if t not in seen:
+            seen.add(t)
+            res.append(t)
+    return res
+
+
 def operand_table(rep):
     """E: C7N_Rewriter.operand groups exactly the texts whose class is looser than the connector (real parser as oracle),
     and the grouped text is an ATOM containing the same tree."""
@@ -169,8 +202,11 @@ def operand_table(rep):
     if not hasattr(R, "operand"):
         V.table_obl(rep, "operand-table", func, "operand() exists", False, "C7N_Rewriter.operand missing")
         return
-    for text in REPRESENTATIVES:
-        cls = true_class(text)
+    for text in generated_texts():
+        try:
+            cls = true_class(text)
+        except Exception:
+            continue            # not a CEL text (e.g. a map literal the grammar rejects): outside the family
         for conn, loose in (("&&", (OR, TERNARY)), ("||", (TERNARY,))):
             got = R.operand(text, conn)
             want_wrap = cls in loose
